@@ -13,8 +13,6 @@ programs (well-typed by role) and schedule `sched : List Tid` — no bound.
 import Mqtt.Proofs.RingSafety
 import Mqtt.Proofs.RingAbs
 import Mqtt.Proofs.RingFacts
-import Mqtt.Proofs.XlatePow2
-import Mqtt.Proofs.XlateRingCopy
 
 set_option linter.unusedSimpArgs false
 set_option linter.unusedVariables false
@@ -189,55 +187,7 @@ example :
     s.sh.gotRev.reverse = [1, 2, 3, 4, 5, 6] ∧ s.sh.pseq = 6 ∧ s.sh.cseq = 6 ∧ s.sh.done = true ∧
       s.P.pc = .idle ∧ s.P.res = some { n := 3, err := .eof } := by decide +kernel
 
-/-! ## Tie to the Go source: the sizing helpers, the index mask and `ringCopy`
-
-`Mqtt.Generated.Xlate.Service.powerOfTwo64`, `roundUpPowerOfTwo64`, `ringCopy` are
-produced from `service/buffer.go` by `extract/cmd/xlate` on every check.  The
-ring operations themselves (condition variables, atomics) are outside the
-translator's subset: the ring model stays tied by the scheduled correspondence
-runs; what is tied here is the arithmetic its guard `size = 2^k`,
-`idx pos = pos & (size-1)` rests on. -/
-
-section Source
-open Mqtt.Generated.Xlate
-
-/-- the model's ring size passes the code's `powerOfTwo64` test, and for 0 < n < 2^63 that test
-holds exactly for the powers of two -/
-theorem C14_powerOfTwo64_is_source (cfg : Cfg) (hk : cfg.k < 63) (n : Int) (hn : 0 < n ∧ n < 2 ^ 63) :
-    Service.powerOfTwo64 (cfg.size : Int) = true ∧
-    (Service.powerOfTwo64 n = true ↔ ∃ k : Nat, n = 2 ^ k) :=
-  ⟨Mqtt.Proofs.XlatePow2.ring_size_is_power_of_two cfg hk,
-   by rw [Mqtt.Proofs.XlatePow2.service_powerOfTwo64_eq]; exact Mqtt.Proofs.XlatePow2.powerOfTwo64_iff n hn⟩
-
-/-- `roundUpPowerOfTwo64` yields the least power of two ≥ n.  `_partial`: for 0 < n ≤ 2^62; beyond
-that the Go function overflows `int64` (2^62 < n gives -2^63, which `newBuffer` then replaces by
-2·8192) — signed wrap-around is not represented in the translation
-(`XlatePow2.roundUp_differs_high`). -/
-theorem C14_roundUpPowerOfTwo64_partial (n : Int) (h : 0 < n ∧ n ≤ 2 ^ 62) :
-    ∃ k : Nat, Service.roundUpPowerOfTwo64 n = 2 ^ k ∧ n ≤ 2 ^ k ∧ 2 ^ k < 2 * n := by
-  rw [Mqtt.Proofs.XlatePow2.service_roundUpPowerOfTwo64_eq]
-  exact Mqtt.Proofs.XlatePow2.roundUpPowerOfTwo64_least n h
-
-/-- `pos & bf.mask` with `mask = size - 1` is the model's `idx`, i.e. `pos mod size` -/
-theorem C14_idx_is_source (cfg : Cfg) (hk : cfg.k < 63) (pos : Nat) (hp : pos < 2 ^ 63) :
-    Go.andInt 64 (pos : Int) ((cfg.size : Int) - 1) = ((cfg.idx pos : Nat) : Int) ∧
-    cfg.idx pos = pos % cfg.size :=
-  Mqtt.Proofs.XlatePow2.ring_idx_is_mask cfg hk pos hp
-
-/-- `ringCopy(bf.buf, p, ppos & bf.mask)` (the copy inside `Write`) does what the model's
-byte-by-byte copy does: byte j of p goes to cell `idx (ppos + j)`, every other cell is left alone,
-and the count is `len(p)` — for every iteration budget ≥ 3 of the translation's loop -/
-theorem C14_ringCopy_is_source (cfg : Cfg) (fuel : Nat) (hf : 3 ≤ fuel) (dst src : List UInt8) (ppos : Nat)
-    (hlen : dst.length = cfg.size) (hS : src.length ≤ cfg.size) :
-    ∃ dst', Service.ringCopy fuel dst src ((cfg.idx ppos : Nat) : Int) = Res.ok (dst', src.length) ∧
-      dst'.length = cfg.size ∧
-      (∀ j : Nat, j < src.length → dst'[cfg.idx (ppos + j)]? = src[j]?) ∧
-      (∀ p : Nat, (∀ j : Nat, j < src.length → p ≠ cfg.idx (ppos + j)) → dst'[p]? = dst[p]?) :=
-  Mqtt.Proofs.XlateRingCopy.ringCopy_ring cfg fuel hf dst src ppos hlen hS
-
-example : Service.roundUpPowerOfTwo64 5000 = 8192 ∧ Service.powerOfTwo64 8192 = true ∧
-    Service.ringCopy 3 [0, 0, 0, 0] [7, 8, 9] 2 = .ok ([9, 0, 7, 8], 3) := by decide
-
-end Source
+/-! The tie to the Go source (the theorems `C14_…_is_source…` over the regenerated translation
+`Mqtt.Generated.Xlate`) is in `Properties/C14Source.lean`, which nothing imports. -/
 
 end Mqtt.Properties.C14
